@@ -257,8 +257,13 @@ pub fn def() -> CheckDef {
         rule: "parser-accepted inputs (reference encodings as in C11 whose labels, character strings and TXT strings are biased to invalid UTF-8, NUL, '.', '\\\\', '=', ';', empty and maximal lengths; plus accepted mutated encodings); every public observer is applied to the packet and to every question, record, name, label, character string and RDATA under panic capture: Debug, Display/to_string, clone, into_owned, ==, Hash, is_link_local, iter, is_subdomain_of/without against the other names of the packet, match_qtype/match_qclass against the packet's questions and all special QTYPE/QCLASS values, TXT attributes / long_attributes / String::try_from, SVCB params, NULL data. Metamorphic: valid UTF-8 renders verbatim; String::try_from is Ok iff the bytes are UTF-8. Non-trivial = accepted and at least one name or string with a byte outside printable ASCII (or empty/maximal)",
         assumptions: vec!["WireFormat::len is crate-private and not an observer"],
         sections: vec![
+            Box::new(ReplayOnly { name: "fuzz-bytes", check: check_raw }),
             Box::new(PropSection { name: "observers", rule: "reference encodings with hostile bytes", strategy: super::c11::strategy_pub, cases: (40_000, 1_000_000), check }),
             Box::new(PropSection { name: "mutated", rule: "accepted mutated encodings", strategy: super::c01::mutated_strategy, cases: (40_000, 1_000_000), check: check_mutated }),
         ],
     }
+}
+
+fn check_raw(b: &Bytes, case: &mut Case) -> Result<(), Fail> {
+    inspect_bytes(b, case).map(|_| ())
 }
